@@ -471,10 +471,17 @@ class StmtMixin:
         hook = self.summaries.get(cls.qualname + ".__new__")
         if hook is not None:
             return hook(self, cls, args, kwargs)
-        o = Obj(cls)
         new = cls.find_method(self.repo, "__new__")
         if new is not None:
-            raise Unsupported(f"{cls.name}.__new__")
+            # the real __new__ runs (class-level state such as a singleton table lives in self.class_state);
+            # __init__ then runs on whatever instance it returns, as CPython does
+            o = self.call_function(FuncVal(new), [ClassRef(cls)] + list(args), dict(kwargs))
+            if isinstance(o, Obj) and o.cls.is_subclass_of(self.repo, cls):
+                init = cls.find_method(self.repo, "__init__")
+                if init is not None:
+                    self.call_function(FuncVal(init, self_val=o), args, kwargs)
+            return o
+        o = Obj(cls)
         if "dataclass" in " ".join(cls.decorators):
             fields = [n for c in reversed(cls.mro(self.repo)) for n in _dataclass_fields(c)]
             defaults = {}
